@@ -119,6 +119,23 @@ fn corpus() -> Vec<String> {
         "[v1.]", "[::ffff:1.2.3.256]", "é", "a%20b", "a%2", "a%zz", "a b", "[1:2:3:4:5:6::8]", "[1:2:3:4:5::8]", "[1:2:3:4::8]", "[1:2:3::8]", "[1:2::8]", "[1::8]",
         "[f::1]", "[1:2::3:4:5:6:7]", "[1f::1::]",
     ];
+    // every shape of IPv6address: k groups, "::", m groups (k + m <= 9), with and without an IPv4 tail; no "::" with 1..9 groups
+    let mut hosts: Vec<String> = hosts.iter().map(|h| h.to_string()).collect();
+    for k in 0..=9usize {
+        for m in 0..=(9 - k) {
+            let left = (1..=k).map(|i| format!("{i}")).collect::<Vec<_>>().join(":");
+            let right = (1..=m).map(|i| format!("{:x}", 10 + i)).collect::<Vec<_>>().join(":");
+            hosts.push(format!("[{left}::{right}]"));
+            if m >= 1 {
+                hosts.push(format!("[{left}::{}{}1.2.3.4]", (1..m).map(|i| format!("{:x}", 10 + i)).collect::<Vec<_>>().join(":"), if m > 1 { ":" } else { "" }));
+            }
+        }
+        if k >= 1 {
+            hosts.push(format!("[{}]", (1..=k).map(|i| format!("{i}")).collect::<Vec<_>>().join(":")));
+            hosts.push(format!("[{}:1.2.3.4]", (1..=k).map(|i| format!("{i}")).collect::<Vec<_>>().join(":")));
+        }
+    }
+    let hosts: Vec<&str> = hosts.iter().map(|h| h.as_str()).collect();
     let userinfos = ["", "u@", "u:p@", "@", "u@v@", "%41@", "é@"];
     let ports = ["", ":", ":80", ":8a"];
     let paths = ["", "/", "/a", "/a/b", "//a", "/a//b", "/.", "/..", "/a/../b", "/a/./b", "/:", "/a:b", "/%41", "/%4", "/é", "/\u{E000}", "/a b", "/<"];
@@ -225,6 +242,25 @@ pub fn main(args: &[String]) {
             tr.emit(validate_event(&s));
             if let Some(e) = asbase_event(&s) {
                 tr.emit(e);
+            }
+        }
+        // (ii') Namespace::new(ns) and Namespace::get(suffix): ns + suffix goes through the same validator
+        let suffixes = ["", "a", "api", "1", "80", "x/y", ":", ":1", "#f", "%41", "%4", " ", "\u{e9}", "a b", "?q", "[", "@", ".", "-", "~", "//h", "a:b"];
+        let nss: Vec<&String> = corp.iter().filter(|c| c.len() <= 40).collect();
+        for (i, ns) in nss.iter().enumerate() {
+            for (j, suffix) in suffixes.iter().enumerate() {
+                if (i + j + seed as usize) % 7 != 0 {
+                    continue;
+                }
+                let r = guarded(|| match sophia_api::ns::Namespace::new(ns.as_str()) {
+                    Err(_) => (false, false, String::new()),
+                    Ok(n) => match n.get(suffix) {
+                        Err(_) => (true, false, String::new()),
+                        Ok(t) => (true, true, sophia_api::term::Term::iri(&t).map(|x| x.to_string()).unwrap_or_default()),
+                    },
+                });
+                let (panic, (new_ok, get_ok, got)) = match r { Ok(x) => (false, x), Err(_) => (true, (false, false, String::new())) };
+                tr.emit(json!({"ev":"NsGet","ns":cps(ns),"suffix":cps(suffix),"new_ok":new_ok,"get_ok":get_ok,"iri":cps(&got),"panic":panic}));
             }
         }
         // (iii) resolution: pairs of accepted values (accepted by the toolkit's own validators)
